@@ -28,12 +28,18 @@ def bounds():
 def gen_script(r, tier, idx):
     from vlib.man import Phase
 
-    kind = r.choice(["reset-in-connect", "reset-in-connect", "blackout-connected", "lossy", "rferr", "blackout-at-start", "mixed", "reset-anytime", "set-info", "interface-down", "rferr-long", "not-found-then-reset"])
+    kind = r.choice(["reset-in-connect", "reset-in-connect", "blackout-connected", "lossy", "rferr", "blackout-at-start", "mixed", "reset-anytime", "set-info", "interface-down", "rferr-long", "not-found-then-reset", "reset-at-step", "reset-at-step"])
     phases, actions = [], []
     if kind == "reset-in-connect":
         # a reset at a 100 ms step of the first connection attempt
         step = (idx % 60) * 0.1 if tier == "thorough" else round(r.uniform(0, 5.5), 1)
         actions = [(step, r.choice(["reset", "reset", "set-info"]))]
+        phases = [Phase("healthy", 8)]
+    elif kind == "reset-at-step":
+        # a reset right after the k-th callback scheduled on the event loop since the context was
+        # entered (about 260 task steps lead to CONNECTED): between two steps at the same instant
+        k = (idx % 330) if tier == "thorough" else r.randrange(0, 330)
+        actions = [(("step", k), r.choice(["reset", "reset", "set-info"]))]
         phases = [Phase("healthy", 8)]
     elif kind == "blackout-connected":
         phases = [Phase("healthy", r.choice([6, 30, 70])), Phase("blackout", r.choice([0.5, 5, 30, 140, 400, 560]))]
@@ -64,7 +70,7 @@ def gen_script(r, tier, idx):
     else:
         phases = [Phase("healthy", 20)]
         actions = [(r.uniform(0, 20), "set-info")]
-    return kind, phases, sorted(actions)
+    return kind, phases, (actions if kind == "reset-at-step" else sorted(actions))
 
 
 def scenario(sh: Shard, seed, idx, tier):
@@ -92,6 +98,17 @@ def scenario(sh: Shard, seed, idx, tier):
                 t0 = mw.w.now
                 pending = list(actions)
                 users = []
+                if pending and isinstance(pending[0][0], tuple):
+                    (_, k_), act_ = pending.pop(0)
+                    lp = mw.w.loop
+
+                    def fire(act_=act_):
+                        users.append(asyncio.ensure_future(man.async_reset() if act_ == "reset" else man.async_set_spa_info(mw.kw["spa_address"], mw.kw["spa_identifier"], mw.kw["spa_name"])))
+                        sh.count("user_actions")
+                        sh.count("resets_at_a_scheduler_step")
+
+                    lp.step_target = lp.steps_scheduled + k_
+                    lp.step_hook = fire
                 for ph in phases:
                     mw.set_phase(ph)
                     if ph.mode in ("blackout", "lossy") and r.random() < 0.5:
@@ -166,7 +183,7 @@ def scenario(sh: Shard, seed, idx, tier):
             return
         sh.evaluations += 1
         ev, api = mw.events, mw.api
-        wit = {"scenario": label, "regime": regime, "suspend": suspend, "snapshot": snapshot[:20], "phases": [p.as_list() for p in phases], "actions": [(round(a, 2), b) for a, b in actions], "final_state": out.get("final_state"), "recovery_s": None if out.get("t_connected") is None else round(out["t_connected"] - out["H"], 2), "last_events": [(round(e["t"] - 1000, 1), e["event"], e["state"]) for e in ev[-8:]]}
+        wit = {"scenario": label, "regime": regime, "suspend": suspend, "snapshot": snapshot[:20], "phases": [p.as_list() for p in phases], "actions": [((round(a, 2) if not isinstance(a, tuple) else list(a)), b) for a, b in actions], "final_state": out.get("final_state"), "recovery_s": None if out.get("t_connected") is None else round(out["t_connected"] - out["H"], 2), "last_events": [(round(e["t"] - 1000, 1), e["event"], e["state"]) for e in ev[-8:]]}
 
         def pump_inside(rec):
             return any(e["task"] == "SPAMAN:Sequence Pump" and rec["seq0"] < e["seq"] < rec.get("seq1", 1 << 60) for e in ev)
@@ -254,7 +271,7 @@ def main(tier, seed):
     run.extra["bounds_virtual_seconds"] = {"B_up": up, "B_down": down}
     run.need(run.counters.get("recoveries", 0) > 60, "too few recoveries observed")
     run.need(run.counters.get("long_outages_from_connected", 0) >= 1 or tier == "quick", "no long outage from CONNECTED")
-    for k in ("reset-in-connect", "blackout-connected", "lossy", "rferr", "blackout-at-start", "mixed", "interface-down", "rferr-long", "not-found-then-reset"):
+    for k in ("reset-in-connect", "blackout-connected", "lossy", "rferr", "blackout-at-start", "mixed", "interface-down", "rferr-long", "not-found-then-reset", "reset-at-step"):
         run.need(k in run.sets.get("script_kinds", set()), f"script kind {k} not exercised")
     return run.finish(
         rule="fault scripts (reset / set-spa-info at a 100 ms step of the first connection attempt - thorough: every step 0..5.9 s -, blackout while connected from 0.5 to 400 s, lossy 20-90 %, RF-error periods (up to 3600 s: past the too-many-RF-errors escalation), interface-down periods (every send fails with an OS error reported through error_received), blackout at start, mixed phase sequences with resets) followed by a healthy network, silent spa-side changes during outages, handlers none/tick/seconds, regimes B/J; one evaluation = one script; distinct = distinct scripts",
